@@ -577,6 +577,36 @@ def run_probe(pr):
             defer(f, num(pr['delta']), target)
         elif op == 'play':
             Routine(child).play(target, 0)
+        elif op == 'state_op':
+            # another routine resets / stops / pauses+resumes a routine whose wake-up is PENDING; the victim keeps yielding
+            obs['resumes'] = []
+
+            def victim2(inv):
+                _, vclock = inv
+                for _j in range(pr['n']):
+                    obs['resumes'].append([fr(main.current_tt._seconds), fr(vclock.beats)])
+                    yield num(pr['after'])
+                obs['resumes'].append([fr(main.current_tt._seconds), fr(vclock.beats)])
+            vr2 = Routine(victim2)
+            vr2.play(target, 0)
+            yield num(pr['adv'])
+            snap('at_resched', clock)
+            sop = pr['sop']
+            if sop == 'reset':
+                vr2.reset()
+            elif sop == 'stop':
+                vr2.stop()
+            else:
+                vr2.pause()
+                yield num(pr['adv2'])
+                snap('at_resume', clock)
+                obs['target_beats_at_resume'] = fr(target.beats)
+                if pr.get('rquant') is None:
+                    vr2.resume()
+                else:
+                    vr2.resume(None, num(pr['rquant']))
+            yield num(pr['after']) * (2 * pr['n'] + 4)          # let the victim finish (or stay silent)
+            obs['done'] = True
         elif op == 'playq':
             # play with a Quant onto a TempoClock: default (None), int, tuple, Quant object, negative phases
             from sc3.base.clock import Quant
@@ -1141,35 +1171,45 @@ def run_clockseq(pr):
     return obs
 
 
+STUCK_AFTER = 90.0      # every wait of this runner is bounded by 8 s; an item that holds the process for 90 s is stuck, not slow
+
+
 def main_():
     payload = json.load(open(sys.argv[1]))
-    out = []
+    results = {'out': [], 'probes_out': [], 'alongside_out': [], 'clumps_out': [], 'msgnest_out': [], 'nextdrive_out': [], 'clockseq_out': []}
+    state = {'t': time.time(), 'key': None, 'item': None, 'finished': False}
+
+    def dump():
+        with open(sys.argv[2], 'w') as f:
+            json.dump(results, f)
+
+    def watchdog():
+        # a clock thread or a lock of the library that never gives control back (deadlock / spin) would hold the whole check
+        while not state['finished']:
+            time.sleep(1.0)
+            if state['key'] is not None and time.time() - state['t'] > STUCK_AFTER:
+                results[state['key']].append({'fatal': 'stuck', 'stuck': True,
+                                              'what': 'the library did not give control back within %d s (all waits of the runner are bounded by 8 s)' % STUCK_AFTER})
+                results['stuck_item'] = {'key': state['key'], 'item': state['item']}
+                dump()
+                os._exit(0)
+    threading.Thread(target=watchdog, daemon=True).start()
     if MODE == 'rt':
         rt_setup(payload.get('seed', 1))
-    for prog in payload.get('cases', []):
-        try:
-            out.append(run_nrt(prog, payload.get('share_lists', False)) if MODE == 'nrt' else run_rt(prog))
-        except Exception as e:
-            import traceback
-            out.append({'fatal': '%r\n%s' % (e, traceback.format_exc())})
-    pout = []
-    for pr in payload.get('probes', []):
-        try:
-            pout.append(run_probe(pr))
-        except Exception as e:
-            import traceback
-            pout.append({'fatal': '%r\n%s' % (e, traceback.format_exc())})
-    aout, cout = [], []
-    mout, ndout, csout = [], [], []
-    for key, fn_, acc in (('alongside', run_alongside, aout), ('clumps', run_clump, cout), ('msgnest', run_msgnest, mout), ('nextdrive', run_nextdrive, ndout), ('clockseq', run_clockseq, csout)):
+    plan = [('cases', 'out', (lambda pr: run_nrt(pr, payload.get('share_lists', False))) if MODE == 'nrt' else run_rt),
+            ('probes', 'probes_out', run_probe), ('alongside', 'alongside_out', run_alongside), ('clumps', 'clumps_out', run_clump),
+            ('msgnest', 'msgnest_out', run_msgnest), ('nextdrive', 'nextdrive_out', run_nextdrive), ('clockseq', 'clockseq_out', run_clockseq)]
+    for key, okey, fn_ in plan:
         for pr in payload.get(key, []):
+            state.update(t=time.time(), key=okey, item=pr)
             try:
-                acc.append(fn_(pr))
+                results[okey].append(fn_(pr))
             except Exception as e:
                 import traceback
-                acc.append({'fatal': '%r\n%s' % (e, traceback.format_exc())})
-    with open(sys.argv[2], 'w') as f:
-        json.dump({'out': out, 'probes_out': pout, 'alongside_out': aout, 'clumps_out': cout, 'msgnest_out': mout, 'nextdrive_out': ndout, 'clockseq_out': csout}, f)
+                results[okey].append({'fatal': '%r\n%s' % (e, traceback.format_exc())})
+    state['finished'] = True
+    state['key'] = None
+    dump()
     global _burn
     _burn = False
 
